@@ -56,7 +56,7 @@ def build_corpus(crate, meta, log):
     """returns {case_id: {"where", "msg"}} of cases that do not compile; leaves the bins built without them"""
     failed = {}
     by_file = {b["src"]: b for b in meta["bins"]}
-    for rnd in range(8):
+    for rnd in range(40):      # a fatal error (e.g. recursion limit) hides all later ones: one case per round then
         t0 = time.time()
         rc, msgs, err = cargo_json(crate, ["--bins"])
         errs = errors_of(msgs)
